@@ -873,6 +873,22 @@ def gen_case(rng, kind, idx=None):
             if trt == tb:
                 world[(ty, trt)] = {a: 'GB' for a in assocs_of(tb)}
         return Case(kind, 'K', '', blocks, probes, world)
+    elif kind == 'refmut_overlap':
+        # round 10 (seeds C04j, C11j): a `&T` block next to TWO `&mut T` blocks with the same payload
+        # (a genuine overlap: `&mut X0` satisfies both), in all six orders: must be rejected; a
+        # matcher for which `&T` generalises `&mut T` parks one of the two in the `&T` family
+        ga, gb = [('GA', 'GB'), ('GB', 'GC'), ('GC', 'GA')][(idx or 0) // 6 % 3]
+        tr = 'D'
+        spec = [("&{L0} {T0}", ga), ("&{L0} mut {T0}", gb), ("&{L0} mut {T0}", gb)]
+        import itertools as _it
+        order = list(_it.permutations(range(3)))[(idx or 0) % 6]
+        blocks = []
+        for n_, j in enumerate(order):
+            slots = mk_slots(rng, ['L0', 'T0'])
+            blocks.append(Block({x: slots[x] for x in ['L0', 'T0']}, None, spec[j][0], [('{T0}', tr, {'G': spec[j][1]}, rng.choice(['inline', 'where']))], 'b%d' % n_))
+        world = {('X0', tr): {'G': gb}, ('X1', tr): {'G': ga}}
+        probes = [(None, "&'static mut X0"), (None, "&'static X1"), (None, "&'static X0"), (None, "&'static mut X1"), (None, 'X0')]
+        return Case(kind, 'K', '', blocks, probes, world)
     elif kind == 'refmut':
         # two headers that differ only in the mutability of a reference (at the top or inside a
         # tuple), with payloads that do not collide across the two: two families
